@@ -102,12 +102,33 @@ def check(prog, rep, tier):
         rep.bad('R14.b', 'open-fixed-part', file=op.file, line=op.node.lineno, func=op.qualname,
                 found='fixed part formats: parse %s, construct %s' % ([x for x in pf if len(x) > 4], [x for x in cf if len(x) > 4]),
                 expected='!BHHIB both ways', key='open-fixed-part')
-    # the fixed part is read from message[:10] and options from message[10:]
-    txt = src_of(op.node)
-    opt_src = [src_of(n.value) for n in ast.walk(op.node) if isinstance(n, ast.Assign) and
-               isinstance(n.targets[0], ast.Attribute) and n.targets[0].attr == 'opt_paras'
-               and 'message' in src_of(n.value)]
-    if 'message[:10]' in txt and opt_src == ['message[10:]']:
+    # the fixed part is read from message[:10] and options from message[10:] (bounds folded, so named
+    # constants are fine)
+    def fold_b(e):
+        if e is None:
+            return None
+        if isinstance(e, ast.Attribute) and isinstance(e.value, ast.Name) and e.value.id in ('self', 'cls'):
+            try:
+                return prog.class_const(op.cls, e.attr)
+            except NotConst:
+                return 'unknown'
+        v = prog.try_fold(e, op.module, op.cls)
+        return v if v is not None else 'unknown'
+    fixed_ok = False
+    for n in ast.walk(op.node):
+        if isinstance(n, ast.Call) and src_of(n.func) == 'struct.unpack' and n.args and \
+                isinstance(n.args[0], ast.Constant) and n.args[0].value == '!BHHIB' and len(n.args) > 1:
+            a = n.args[1]
+            if isinstance(a, ast.Subscript) and isinstance(a.slice, ast.Slice) and src_of(a.value) == 'message' and \
+                    fold_b(a.slice.lower) in (None, 0) and fold_b(a.slice.upper) == 10:
+                fixed_ok = True
+    opt_vals = [n.value for n in ast.walk(op.node) if isinstance(n, ast.Assign) and
+                isinstance(n.targets[0], ast.Attribute) and n.targets[0].attr == 'opt_paras'
+                and 'message' in src_of(n.value)]
+    opt_ok = len(opt_vals) == 1 and isinstance(opt_vals[0], ast.Subscript) and isinstance(opt_vals[0].slice, ast.Slice) \
+        and src_of(opt_vals[0].value) == 'message' and fold_b(opt_vals[0].slice.lower) == 10 \
+        and opt_vals[0].slice.upper is None
+    if fixed_ok and opt_ok:
         rep.ok('R14.b', 'open-offsets', file=op.file, line=op.node.lineno)
     else:
         rep.bad('R14.b', 'open-offsets', file=op.file, line=op.node.lineno, func=op.qualname,
@@ -219,6 +240,23 @@ def check(prog, rep, tier):
                 rhs = n.comparators[0]
                 elts = rhs.elts if isinstance(n.ops[0], ast.In) and isinstance(rhs, (ast.Tuple, ast.List, ast.Set)) \
                     else ([rhs] if isinstance(n.ops[0], ast.Eq) else [])
+                if isinstance(n.ops[0], ast.In) and isinstance(rhs, ast.Attribute) and not elts:
+                    # a class-level table of the Capability class: `code in capability.FLAG_KEYS`
+                    c0, e0 = cap.find_attr(rhs.attr)
+                    if isinstance(e0, ast.Dict):
+                        elts = list(e0.keys)
+                    elif isinstance(e0, (ast.Tuple, ast.List, ast.Set)):
+                        elts = list(e0.elts)
+                    for e in elts:
+                        v = prog.try_fold(e, c0.module, c0)
+                        if v is None and isinstance(e, ast.Name):
+                            try:
+                                v = prog.class_const(cap, e.id)
+                            except NotConst:
+                                v = None
+                        if v is not None:
+                            out.add(v)
+                    continue
                 for e in elts:
                     v = prog.try_fold(e, fn.module, fn.cls)
                     if v is None and isinstance(e, ast.Attribute):
